@@ -810,3 +810,7 @@ pub(crate) unsafe fn database_handle_transaction(
         db.transaction(|db| callback.execute(db))
     }
 }
+
+#[cfg(kani)]
+#[path = "/verif/harness/ffi_outstation_database.rs"]
+mod verif_harness;
